@@ -22,7 +22,7 @@ GEN_RT = {"quick": ["Gen_write_quick.cfg", "Gen_rewrite_quick.cfg"],
           "thorough": ["Gen_write_thorough.cfg", "Gen_rewrite_thorough.cfg", "Gen_insert_thorough.cfg"]}
 GEN_DOC = {"quick": ["Gen_doc_quick.cfg", "Gen_doc_core_quick.cfg"],
            "thorough": ["Gen_doc_thorough.cfg", "Gen_doc_core_thorough.cfg"]}
-MIN_CASES = {"Gen_write_quick.cfg": 500, "Gen_rewrite_quick.cfg": 3000, "Gen_doc_quick.cfg": 10000, "Gen_doc_core_quick.cfg": 30000,
+MIN_CASES = {"Gen_stream.cfg": 1000, "Gen_write_quick.cfg": 500, "Gen_rewrite_quick.cfg": 3000, "Gen_doc_quick.cfg": 10000, "Gen_doc_core_quick.cfg": 30000,
              "Gen_write_thorough.cfg": 10000, "Gen_rewrite_thorough.cfg": 50000, "Gen_insert_thorough.cfg": 5000,
              "Gen_doc_thorough.cfg": 100000, "Gen_doc_core_thorough.cfg": 50000}
 
@@ -76,10 +76,28 @@ def run(chk, args):
         if not classes.get("doc:" + need):
             chk.fail("vacuous: no abstract document with expected class %s" % need)
             return
-    # 4. hostile streams: termination, bounded heap
-    s = vlib.drive_cases(chk, drv, ["extra"], None, [50], tag="extra", timeout=900)
+    # 4. endless streams prefix.unit.unit... (a pre interleaved with inner tags, ...) from a counting source:
+    #    an error or the first decoded byte after a bounded amount of input
+    cases = generate(chk, "Gen_stream.cfg")
+    if cases is None:
+        return
+    kinds = {}
+    for c in cases:
+        kinds[c["expect"]["kind"]] = kinds.get(c["expect"]["kind"], 0) + 1
+    if not kinds.get("prompt") or not kinds.get("error") or not kinds.get("silent"):
+        chk.fail("vacuous: stream classes %s" % kinds)
+        return
+    chk.sample(next(c for c in cases if c["expect"]["kind"] == "prompt" and "Tag" in c["unit"]))
+    rounds = 1 if chk.tier == "quick" else 2
+    for rnd in range(rounds):
+        s = vlib.drive_cases(chk, drv, ["stream"], cases, [chk.seed + 104729 * rnd, 256 if chk.tier == "quick" else 512], tag="stream", timeout=900)
+    chk.note("endless streams: %d streams x %d rounds (%s), %d watchdog suspects" % (len(cases), rounds, kinds, s["suspects"]))
+    classes.update({"stream:" + k: v for k, v in kinds.items()})
+    # 5. hostile streams: termination, live heap bounded, prompt delivery over 50 MB
+    #    (quick: the streams of many small tokens are 4 times shorter)
+    s = vlib.drive_cases(chk, drv, ["extra"], None, [50, 4 if chk.tier == "quick" else 1], tag="extra", timeout=1500)
     worst = max(int(x["heap_growth"]) for x in s["streams"])
-    chk.note("hostile streams: %d streams of 50 MB, largest heap growth %d bytes" % (len(s["streams"]), worst))
+    chk.note("hostile streams: %d streams of up to 50 MB, largest live-heap growth %d bytes" % (len(s["streams"]), worst))
     chk.cov["expected_classes"] = classes
     chk.cov["tolerated_order_deviations"] = deviations
     chk.cov["hostile_streams"] = s["streams"]
@@ -90,7 +108,7 @@ def run(chk, args):
                        "an abstract document is non-trivial when it contains a <pre>; every hostile stream counts")
     chk.assumptions += ["payload bytes and the concrete spelling of tokens are seeded pseudo-random choices (content classes are not enumerated by TLC)",
                         "encoding/base64 of the Go standard library computes the reference decoding of concretised documents",
-                        "heap growth is the peak of runtime.MemStats.HeapAlloc sampled every 3 ms against a 16 MiB bound"]
+                        "buffering is measured as live heap: runtime.GC + MemStats.HeapAlloc taken inside the source's Read every MB handed out (decoder standing still), bound 2 MiB; prompt delivery = first decoded byte within 128 KiB of input (spec PromptBytes)"]
 
 
 def generate(chk, cfg):
